@@ -146,7 +146,14 @@ func c08Config(rep *verifkit.Report, rng *rand.Rand, up *sysUpstream, ci int) {
 	tag := fmt.Sprintf("c%d", ci)
 	// Ignore lists: ||class^ forms match every unique name of the class;
 	// plain and wildcard forms are exercised with fixed names.
-	qlogIgnore := []string{"||qlign-" + tag + ".verif.example^", "plain-qlign-" + tag + ".verif.example"}
+	plainEntry := "plain-qlign-" + tag + ".verif.example"
+	if ci%2 == 0 {
+		// The entry as a user may type it; names are compared without regard
+		// to letter case.
+		plainEntry = "Plain-QLign-" + tag + ".Verif.EXAMPLE"
+		rep.Class("configurations_with_capitalised_plain_ignore_entry")
+	}
+	qlogIgnore := []string{"||qlign-" + tag + ".verif.example^", plainEntry}
 	statsIgnore := []string{"||stign-" + tag + ".verif.example^", "*.wild-stign-" + tag + ".verif.example"}
 	both := "||bothign-" + tag + ".verif.example^"
 	qlogIgnore = append(qlogIgnore, both)
